@@ -66,6 +66,11 @@ CLAIMED = {
         text="In every driver (base, canonical, Hamiltonian, isobaric, isotension, grand canonical) a bare move and criteria added with an explicit criteria are stored as given, executed with the context, serialized through their own to_dict, and no attribute other than the protocol members is read or written and no isinstance probe is made; a truthy result sends the trial to evaluate exactly once and records True/False, a falsy one records None without evaluating; accepted trials save, rejected revert; every accepted trial of GrandCanonical notifies on_atoms_changed once with the context's added/deleted index sets; Isobaric/Isotension.save_state notifies on_cell_changed(new cell) once iff the cell changed.",
         note="two trials per step with all outcome combinations (histories by Inv); Context.save/revert cut by contract (C03/C04); protocol surface re-read from protocols.py each run.",
         design="§7 C20"),
+    "C19": dict(
+        technique="contract-based deductive verification: the real reinsert_atoms executed on an Atoms heap model whose per-atom arrays are structural terms of symbolic length (numpy scatter/gather contracts with inverse-pair side obligations decided by z3), postcondition at a generic row; the real search_molecules executed on every neighbour relation over 4 atoms with neighbour list / connected components as trusted contracts; native stand-in with random and structured cases",
+        text="For any atom count N, any k<=N distinct in-range indices in any order and every per-atom array (int, float, (n,3), bool; also an array only the re-inserted atoms carry): after deletion and reinsertion every array has its original length, dtype, row shape and, at every row, its original value. Molecule search (n=4, all 64 graphs x 4 size filters x default given/absent): two atoms share a non-negative label iff they are in the same admitted component, every other atom keeps the supplied default (or -1), for any negative default array, without raising.",
+        note="ASE __delitem__/__getitem__/get_masses and numpy mask/index contracts are trusted (pyvc/models/arrays.py, atoms_heap.py); index distinctness is a precondition; search_molecules bounded to 4 atoms in the deductive part (random geometries up to 9 atoms natively).",
+        design="§7 C19"),
 }
 PENDING_REASON = "check not yet registered in this revision (under construction; see DESIGN.md §0/§7 for the plan)"
 
